@@ -72,3 +72,18 @@ CASES += [
       "        if self.has_PDeph:\n            \n            self._BOOT_DEPH()\n            \n            IR = 0.0",
       "        if self.has_PDeph:\n            \n            if not hasattr(self, \"expo\"):\n                self._BOOT_DEPH()\n            \n            IR = 0.0"),
 ]
+
+SVE = "quantarhei/qm/propagators/statevectorevolution.py"
+CASES += [
+    m("state-vector conversion by a scalar product (the repaired defect)", "C02-D", SVE,
+      "                rhot = Ut*self.data[i,:]", "                rhot = numpy.dot(Ut,self.data[i,:])"),
+    m("initial state not brought into the rotating frame (the repaired defect)", "C02-D", P,
+      "        if self.Hamiltonian.has_rwa:\n            rhoi = self._initial_state_in_RWA(rhoi)\n", "        pass\n"),
+    m("initial state rotated with the sign of the back conversion", "C02-D", S,
+      "        return StateVector(data=numpy.exp(1j*HOmega*t0)*psii.data)", "        return StateVector(data=numpy.exp(-1j*HOmega*t0)*psii.data)"),
+    m("rotating-frame helper overwrites the caller's state", "C02-D", P,
+      "        return ReducedDensityMatrix(data=numpy.dot(Ut,\n                                    numpy.dot(rhoi.data, numpy.conj(Ut))))",
+      "        rhoi.data = numpy.dot(Ut, numpy.dot(rhoi.data, numpy.conj(Ut)))\n        return rhoi"),
+    t("state-vector conversion with numpy.multiply", SVE,
+      "                rhot = Ut*self.data[i,:]", "                rhot = numpy.multiply(Ut, self.data[i,:])"),
+]
